@@ -230,6 +230,16 @@ def lifecycle_check(prop, tier):
     gen = {"C05": ("c5q", "c5t"), "C07": ("c7q", "c7t"), "C06": ("c6q", "c6t")}.get(prop, ("q", "t"))
     cfg = "MC_LifecycleApi_" + (gen[0] if tier == "quick" else gen[1])
     hists, gr = gen_behaviours(cfg, timeout=3000)
+    if prop == "C07" and tier == "thorough":
+        # three and four consecutive lifetimes through the same lines: lifetimes are independent in the model (the counter
+        # starts from zero at every installation), so chains of one-lifetime behaviours are behaviours
+        h1, g1 = gen_behaviours("MC_LifecycleApi_c71", timeout=3000)
+        rnd7 = vlib.rnd("c7chain")
+        for _ in range(1500):
+            chain = []
+            for h in rnd7.sample(h1, rnd7.choice([3, 4])):
+                chain += h
+            hists.append(chain)
     if prop == "C07":
         # the same fake! line installed again while an earlier installation of it is alive (a loop body)
         hr, gr2 = gen_behaviours("MC_LifecycleApi_c7r", timeout=3000)
